@@ -13,10 +13,12 @@ class Batch:
         self.mod, self.cases, self.exe, self.dir, self.text = mod, cases, exe, wdir, text
 
 
-def _build_one(mod, cases, wdir, flavour, opts, defines, drv):
+def _build_one(mod, cases, wdir, flavour, opts, defines, drv, extra_cflags=(), cxx_headers=False):
     text = A.module_text(mod)
     names = [c.name for c in cases]
-    g = build.gen_types(text, names, wdir, opts=opts, flavour=flavour, defines=defines)
+    g = build.gen_types(text, names, wdir, opts=opts, flavour=flavour, defines=defines, extra_cflags=extra_cflags)
+    if cxx_headers:
+        build.cxx_check_headers(g['gen'])
     objs = build.drv_objects(drv, flavour, defines=defines)
     exe = build.link(os.path.join(wdir, 'drv'), objs, g)
     shutil.rmtree(os.path.join(wdir, 'gen'), ignore_errors=True)
@@ -28,7 +30,7 @@ def _build_one(mod, cases, wdir, flavour, opts, defines, drv):
     return Batch(mod, cases, exe, wdir, text)
 
 
-def build_corpus(cases, workdir, flavour='asan', opts=(), defines=(), per_module=60, drv=DRV, prefix='T'):
+def build_corpus(cases, workdir, flavour='asan', opts=(), defines=(), per_module=60, drv=DRV, prefix='T', extra_cflags=(), cxx_headers=False):
     """returns (batches, failures) ; failures = list of (case, stage/err) for cases that could not be built alone"""
     shutil.rmtree(workdir, ignore_errors=True)
     os.makedirs(workdir)
@@ -46,7 +48,7 @@ def build_corpus(cases, workdir, flavour='asan', opts=(), defines=(), per_module
         m1, c1 = sub[0]
         wdir = os.path.join(workdir, 'b%s' % tag)
         try:
-            return [_build_one(m1, c1, wdir, flavour, opts, defines, drv)], []
+            return [_build_one(m1, c1, wdir, flavour, opts, defines, drv, extra_cflags, cxx_headers)], []
         except build.BuildError as e:
             shutil.rmtree(wdir, ignore_errors=True)
             if len(cs) == 1:
